@@ -39,7 +39,7 @@ def wfApply (s : St) : WfOp → St × Res
   | .start => wfSetState s .RUNNING
   | .pause => if isPaused s then (s, .noop) else wfSetState s .PAUSED
   | .resume => if !isPausedOrIdle s then (s, .noop) else wfSetState s .RUNNING
-  | .stop .SUCCESS => wfSetState s .SUCCESS
+  | .stop .SUCCESS => if isCompleted s then (s, .noop) else wfSetState s .SUCCESS   -- guard: repo patch 15
   | .stop .ERROR => if isCompleted s then (s, .noop) else wfSetState s .ERROR
   | .stop .CANCELLED => if isCompleted s then (s, .noop) else wfSetState s .CANCELLED
   | .stop _ => (s, .noop)
